@@ -121,3 +121,31 @@ func VerifC09Update(k, steps int) {
 	verifAssert(len(d.Options.Options) <= k+1, "no-more-options-than-before-plus-one")
 	verifReach("end")
 }
+
+// VerifC09IAPairs: `pairs` identity associations each holding one address whose option area holds
+// the next identity association (IA_NA > IAADDR > IA_NA > ...), innermost an l-byte unknown option.
+// Every address is 16 bytes of the datagram; a value that kept more than its own bytes alive per
+// level (say the enclosing option's payload) would grow with the square of the depth.
+func VerifC09IAPairs(pairs, l int) {
+	inner := []byte{0xf0, 0, byte(l >> 8), byte(l)}
+	inner = append(inner, verifBytes("payload", l)...)
+	for i := 0; i < pairs; i++ {
+		addr := append([]byte{0x20, 0x01, 0, 0, 0, 0, 0, 0, 0, 0, 0, 0, 0, 0, byte(i >> 8), byte(i)}, 0, 0, 0, 1, 0, 0, 0, 2)
+		addr = append(addr, inner...)
+		body := append([]byte{0, 0, byte(i >> 8), byte(i)}, 0, 0, 0, 1, 0, 0, 0, 2)
+		body = append(body, 0, 5, byte(len(addr)>>8), byte(len(addr)))
+		body = append(body, addr...)
+		inner = append([]byte{0, 3, byte(len(body) >> 8), byte(len(body))}, body...)
+	}
+	verifC09Check(append([]byte{7, 0, 0, 1}, inner...), 2*pairs, false)
+}
+
+// VerifC09Option: a message holding ONE option of the given code whose payload is l symbolic bytes
+// (so every length field inside the payload is symbolic: a 16-bit length that promises more than
+// the datagram holds must not be believed before it is checked).
+func VerifC09Option(code, l int) {
+	b := []byte{1, 0, 0, 1, byte(code >> 8), byte(code), byte(l >> 8), byte(l)}
+	b = append(b, verifBytes("payload", l)...)
+	_, isName := map[int]bool{24: true, 21: true, 39: true, 58: true, 64: true, 65: true, 74: true}[code]
+	verifC09Check(b, 2, isName)
+}
